@@ -702,6 +702,12 @@ class Terms:
                 return t
             return ("item", op["item"] + "::promoted")
         if "item" in op:
+            if op.get("ty") in ("&str", "&'static str"):
+                cb = self.body.facts.bodies.get("const " + op["item"])
+                if cb is not None and cb is not self.body:
+                    v = Terms(cb).return_term()
+                    if v[0] == "const" and isinstance(v[2], str):
+                        return v
             return ("item", op["item"])
         if "bool" in op:
             return ("const", "bool", bool(op["bool"]))
